@@ -384,6 +384,21 @@ func xcircle(seed uint64) string {
 			}
 		}
 	}
+	// wrappers are transparent for a circle too: a point just inside the rim (in the sliver between
+	// the circle and its polygon approximation) as Point, SimplePoint, Feature and collection of one
+	for i := 0; i < 6; i++ {
+		plat, plon := geo.DestinationPoint(lat, lon, c.Meters()*(0.9990+0.0009*float64(r.intn(10))/10), float64(r.intn(3600))/10)
+		p := geometry.Point{X: plon, Y: plat}
+		pt := geojson.NewPoint(p)
+		want := c.Intersects(pt)
+		variants := []geojson.Object{geojson.NewSimplePoint(p), geojson.NewFeature(pt, ""), geojson.NewFeature(geojson.NewSimplePoint(p), `{"id":1}`),
+			geojson.NewFeatureCollection([]geojson.Object{geojson.NewFeature(pt, "")}), geojson.NewGeometryCollection([]geojson.Object{pt})}
+		for _, v := range variants {
+			if c.Intersects(v) != want || v.Intersects(c) != want {
+				return fmt.Sprintf("FAIL circle intersects %s differently from the bare point (%v) at %v", kindName(v), want, p)
+			}
+		}
+	}
 	return "ok"
 }
 
